@@ -55,7 +55,12 @@ NotReset == l <= Len(Rec) /\ Line.ev # "reset"
 TraceStepProps ==
     [][ NotReset => /\ ClaimIsEarliestDueStep
                     /\ NoOrphanAfterStartupStep
-                    /\ NoTaskLostStep ]_<<vars, l>>
+                    /\ NoTaskLostStep
+                    /\ (Line.ev = "Schedule" /\ Line.res = "ok"
+                        /\ "pv" \in DOMAIN Line)
+                       => PayloadKeptStep(Line.n, Line.m, Line.pv,
+                                          {Line.pays[i] : i \in 1..Len(Line.pays)})
+      ]_<<vars, l>>
 
 \* Every state of an accepted trace satisfies the state invariants of C09.
 TraceInvariant == TypeOK /\ RecurringQueued
